@@ -53,6 +53,14 @@ def gen_val_schema(rng):
             if rng.random() < 0.35 and not _is_iface_field(types, tn, f["name"]):
                 t = rng.choice(shapes)
                 f.setdefault("args", []).append({"name": "in%d" % len(f["args"]), "type": t, "default": None})
+    # two abstract types whose possible types are disjoint, reachable from Query (rule 5.5.2.3 between abstract scopes)
+    objs = [n for n, d in types.items() if d["kind"] == "OBJECT" and n not in ("Query", "Mutation", "Subscription")]
+    if len(objs) >= 2 and "UD0" not in types:
+        types["UD0"] = {"kind": "UNION", "members": [objs[0]]}
+        types["UD1"] = {"kind": "UNION", "members": [objs[1]]}
+        types["Query"]["fields"].append({"name": "qud0", "type": N("UD0"), "args": []})
+        types["Query"]["fields"].append({"name": "qud1", "type": L(N("UD1")), "args": []})
+        s["resolvers"] |= {("Query", "qud0"), ("Query", "qud1")}
     dirs = [{"name": "tag", "args": [{"name": "n", "type": N("Int"), "default": ("int", 1)},
                                      {"name": "s", "type": N("String"), "default": None},
                                      {"name": "i", "type": N("In1"), "default": None}], "locations": list(EXEC_LOCS)}]
@@ -845,6 +853,29 @@ def mutants(rng, s, doc, limit_per_rule=6):
             selsets(d, s)[n][0].append({"k": "spread", "name": "ZZImp", "dirs": []})
         add("fragment-spread-is-possible", "named fragment on %s spread in scope %s (selection set %d)" % (c, scope, n), named)
 
+    if "UD0" in s["types"] and "UD1" in s["types"]:
+        tn = {"k": "field", "alias": None, "name": "__typename", "args": [], "dirs": [], "sels": []}
+        qops = [i for i, o in enumerate(doc["ops"]) if o["kind"] == "query"]
+        if qops:
+            i0 = qops[0]
+
+            def abs_named(d):
+                d["frags"].append({"name": "ZZImpAbs", "tc": "UD1", "dirs": [], "sels": [dict(tn)]})
+                d["ops"][i0]["sels"].append({"k": "field", "alias": "zzud", "name": "qud0", "args": [], "dirs": [],
+                                            "sels": [{"k": "spread", "name": "ZZImpAbs", "dirs": []}]})
+            add("fragment-spread-is-possible", "named fragment on union UD1 spread below a field of the disjoint union UD0", abs_named)
+
+            def abs_inline(d):
+                d["ops"][i0]["sels"].append({"k": "field", "alias": "zzud", "name": "qud1", "args": [], "dirs": [],
+                                            "sels": [dict(tn), {"k": "inline", "tc": "UD0", "dirs": [], "sels": [dict(tn)]}]})
+            add("fragment-spread-is-possible", "inline fragment on union UD0 below a field of the disjoint union UD1", abs_inline)
+
+            def abs_nested(d):
+                d["frags"].append({"name": "ZZOuter", "tc": "UD0", "dirs": [], "sels": [dict(tn), {"k": "spread", "name": "ZZInner", "dirs": []}]})
+                d["frags"].append({"name": "ZZInner", "tc": "UD1", "dirs": [], "sels": [dict(tn)]})
+                d["ops"][i0]["sels"].append({"k": "field", "alias": "zzud", "name": "qud0", "args": [], "dirs": [],
+                                            "sels": [{"k": "spread", "name": "ZZOuter", "dirs": []}]})
+            add("fragment-spread-is-possible", "fragment on UD1 spread inside a fragment on the disjoint union UD0", abs_nested)
     # ---- directives
     dh = dir_holders(doc, s)
     didx = list(range(len(dh)))
